@@ -27,6 +27,8 @@ im-lists that the theorems ASSUME and the correspondence run checks on every gra
 import SteelVerif.C11.LemmasLoop
 import SteelVerif.C11.LemmasColl
 import SteelVerif.C11.LemmasEquiv
+import SteelVerif.C11.LemmasConstruct
+import SteelVerif.C11.LemmasRefine
 namespace SteelVerif.C11
 
 /-! ## equal? is structural -/
@@ -136,44 +138,90 @@ example : eqImpl Cfg.fixed witnessMap 9 9 = true :=
 /-- the guard `NoNaN` is needed: a NaN is not `equal?` to itself -/
 example : eqImpl Cfg.fixed [.leaf (.flt 0x7ff8000000000000)] 0 0 = false := by decide
 
-/-- PARTIAL: equal? is symmetric on values that contain NO hash map and NO hash set (guard `NoHashed`, on the
-    whole graph).  MISSING for the property's "equal? is an equivalence relation": symmetry when a hash map or a
-    hash set occurs anywhere inside either value.  There `eqSpec` on maps is "same size and every LEFT entry is
-    found on the right with an equal value" (what the code does); that this is symmetric follows from
-    `KeysDistinct` by a counting argument (an injection between two key lists of the same length is a bijection)
-    which is not formalised; for hash SETS it is even false under the present guards, which do not say that the
-    members of a set are pairwise different (`eq_symm_fails_without_distinct_members`).  Covered by test only
-    (both query orders in the correspondence). -/
-theorem eq_symm_partial (c : Cfg) (hc : c.sound = true) (g : Graph) (a b : Nat) (hwf : WF g) (hn : NoNaN g)
-    (hkd : KeysDistinct g) (hsig : ListSigOK g) (hh : NoHashed g) (ha : a < g.length) (hb : b < g.length) :
+/-- **equal? is symmetric**, also THROUGH hash maps and hash sets.  `eqSpec` on maps/sets is what the code does
+    ("same size and every LEFT entry is found on the right"); that this is symmetric is a counting argument
+    (`cover_symm`: an injection between two pairwise-distinct lists of the same length is onto) which needs the
+    keys of a map (`KeysDistinct`) and the members of a set (`MembersDistinct`) to be pairwise non-`equal?` — what
+    the constructors `hash` / `hashset` guarantee (`mkMap_guards`, `mkSet_guards`, `built_guards` below). -/
+theorem eq_symm (c : Cfg) (hc : c.sound = true) (g : Graph) (a b : Nat) (hwf : WF g) (hn : NoNaN g)
+    (hkd : KeysDistinct g) (hmd : MembersDistinct g) (hsig : ListSigOK g) (ha : a < g.length) (hb : b < g.length) :
     eqImpl c g a b = eqImpl c g b a := by
   rw [eq_structural c hc g a b hwf hn hkd hsig ha, eq_structural c hc g b a hwf hn hkd hsig hb]
-  exact spec_symm hwf hh a b ha hb
+  exact spec_symm_full hwf hkd hmd a b ha hb
 
 /-- two separately built lists `(1)`, and two "hash sets" `{(1), (1)'}` and `{(1), 2}`: the first one has two
-    members that are `equal?` to each other — which no real hash set has, but which none of the guards
-    `WF`, `NoNaN`, `KeysDistinct` (about hash-MAP keys only), `ListSigOK` excludes -/
+    members that are `equal?` to each other — which no real hash set has (`mkSet_guards`) -/
 def witnessDupSet : Graph :=
   [.leaf (.int 1), .leaf (.int 2), .list [0] none, .list [0] none, .set [2, 3], .set [2, 1]]
 
-/-- **Why `eq_symm_partial` cannot simply drop `NoHashed`**: under the guards as they are, symmetry is FALSE
-    (for the specification and, by `eq_structural`, for the model of the code alike).  A symmetric statement
-    through hash sets needs a further guard "the members of a set are pairwise different" (the analogue of
-    `KeysDistinct`), which the model does not have; with it, the counting argument is still to be done. -/
+/-- **The guard `MembersDistinct` is needed**: without it symmetry is FALSE (for the specification and, by
+    `eq_structural`, for the model of the code alike) — and the witness violates exactly that guard. -/
 theorem eq_symm_fails_without_distinct_members :
     WF witnessDupSet ∧ NoNaN witnessDupSet ∧ KeysDistinct witnessDupSet ∧ ListSigOK witnessDupSet ∧
+    ¬ MembersDistinct witnessDupSet ∧
     eqSpec witnessDupSet 4 5 = true ∧ eqSpec witnessDupSet 5 4 = false ∧
     eqImpl Cfg.fixed witnessDupSet 4 5 = true ∧ eqImpl Cfg.fixed witnessDupSet 5 4 = false := by decide
 
-/-- PARTIAL: equal? is transitive on values that contain NO hash map and NO hash set.  MISSING: transitivity
-    through hash maps / hash sets (same counting argument as for `eq_symm_partial`). -/
-theorem eq_trans_partial (c : Cfg) (hc : c.sound = true) (g : Graph) (a b d : Nat) (hwf : WF g) (hn : NoNaN g)
-    (hkd : KeysDistinct g) (hsig : ListSigOK g) (hh : NoHashed g) (ha : a < g.length) (hb : b < g.length)
-    (h1 : eqImpl c g a b = true) (h2 : eqImpl c g b d = true) : eqImpl c g a d = true := by
+/-- **equal? is transitive**, also through hash maps and hash sets. -/
+theorem eq_trans (c : Cfg) (hc : c.sound = true) (g : Graph) (a b d : Nat) (hwf : WF g) (hn : NoNaN g)
+    (hkd : KeysDistinct g) (hmd : MembersDistinct g) (hsig : ListSigOK g) (ha : a < g.length) (hb : b < g.length)
+    (hd : d < g.length) (h1 : eqImpl c g a b = true) (h2 : eqImpl c g b d = true) : eqImpl c g a d = true := by
   rw [eq_structural c hc g a b hwf hn hkd hsig ha] at h1
   rw [eq_structural c hc g b d hwf hn hkd hsig hb] at h2
   rw [eq_structural c hc g a d hwf hn hkd hsig ha]
-  exact spec_trans hwf hh a b d ha hb h1 h2
+  exact spec_trans_full hwf hkd hmd a b d ha hb hd h1 h2
+
+/-- **equal? is an equivalence relation** on every graph that satisfies the guards (`Guards` = `WF`, `NoNaN`,
+    `KeysDistinct`, `MembersDistinct`, `ListSigOK`): all acyclic NaN-free values of the modelled kinds, any nesting,
+    any sharing, hash maps and hash sets included. -/
+theorem eq_equivalence (c : Cfg) (hc : c.sound = true) (g : Graph) (h : Guards g) :
+    (∀ a, a < g.length → eqImpl c g a a = true) ∧
+    (∀ a b, a < g.length → b < g.length → eqImpl c g a b = eqImpl c g b a) ∧
+    (∀ a b d, a < g.length → b < g.length → d < g.length →
+      eqImpl c g a b = true → eqImpl c g b d = true → eqImpl c g a d = true) :=
+  ⟨fun a ha => eq_refl c hc g a h.wf h.nonan h.keys h.sig ha,
+   fun a b ha hb => eq_symm c hc g a b h.wf h.nonan h.keys h.members h.sig ha hb,
+   fun a b d ha hb hd => eq_trans c hc g a b d h.wf h.nonan h.keys h.members h.sig ha hb hd⟩
+
+/-! ### the constructors establish the guards
+
+`Built g`: the graph was built node by node by the constructors of the language — a leaf that is no NaN, a list /
+pair / vector / struct / box over earlier nodes (lists without a shared-storage signature), `(hashset k …)` =
+`mkSet` and `(hash k v …)` = `mkMap` over earlier nodes, which insert member by member with the key equality of
+the code (`keyEqImpl`: same hash and `==`) and REPLACE an equal member.  No guard is assumed. -/
+
+inductive Built : Graph → Prop
+  | nil : Built []
+  | node {g : Graph} (n : Node) : Built g → isHashed n = false → leafNoNaN n = true →
+      (∀ xs s, n = .list xs s → s = none) → (∀ j ∈ children n, j < g.length) → Built (g ++ [n])
+  | set {g : Graph} (ks : List Nat) : Built g → (∀ k ∈ ks, k < g.length) → Built (g ++ [mkSet Cfg.fixed g ks])
+  | map {g : Graph} (kvs : List (Nat × Nat)) : Built g → (∀ e ∈ kvs, e.1 < g.length ∧ e.2 < g.length) →
+      Built (g ++ [mkMap Cfg.fixed g kvs])
+
+/-- every graph built by the constructors satisfies all guards: acyclic, keys of every map and members of every set
+    pairwise non-`equal?` -/
+theorem built_guards {g : Graph} (h : Built g) : Guards g := by
+  induction h with
+  | nil => exact guards_nil
+  | node n _ hn hnan hsig hc ih => exact other_guards ih n hn hnan hsig hc
+  | set ks _ hks ih => exact mkSet_guards ih ks hks
+  | map kvs _ hks ih => exact mkMap_guards ih kvs hks
+
+/-- **equal? is an equivalence relation on all values built by the constructors** (no guard left) -/
+theorem eq_equivalence_built (g : Graph) (h : Built g) :
+    (∀ a, a < g.length → eqImpl Cfg.fixed g a a = true) ∧
+    (∀ a b, a < g.length → b < g.length → eqImpl Cfg.fixed g a b = eqImpl Cfg.fixed g b a) ∧
+    (∀ a b d, a < g.length → b < g.length → d < g.length →
+      eqImpl Cfg.fixed g a b = true → eqImpl Cfg.fixed g b d = true → eqImpl Cfg.fixed g a d = true) :=
+  eq_equivalence Cfg.fixed rfl g (built_guards h)
+
+/-- `(hashset (list 1) (list 1)' 2)` built by the constructor: the second `(1)` replaces the first, the set has two
+    members — unlike the hand-written `witnessDupSet` -/
+example : mkSet Cfg.fixed [.leaf (.int 1), .leaf (.int 2), .list [0] none, .list [0] none] [2, 3, 1] = .set [3, 1] := by
+  decide
+/-- `(hash (list 1) 1 (list 1)' 2)`: one entry, the later key object and value -/
+example : mkMap Cfg.fixed [.leaf (.int 1), .leaf (.int 2), .list [0] none, .list [0] none] [(2, 0), (3, 1)] = .map [(3, 1)] := by
+  decide
 
 /-- x = #(1 (2)), y, z: three separately built copies, each with an inner list; `y`'s inner list is shared with
     a fourth value -/
@@ -181,18 +229,37 @@ def witnessTrans : Graph :=
   [.leaf (.int 1), .leaf (.int 2), .list [1] none, .list [1] none, .vec [0, 2], .mvec [0, 3], .vec [0, 3],
    .list [3, 3] none]
 
-/-- non-vacuity (theorems applied; every hypothesis instantiated): symmetry on the D10 witness (the two values
-    differ) and on equal values; transitivity over three distinct nodes, one of them a mutable vector -/
-example : eqImpl Cfg.fixed witnessD10 5 8 = eqImpl Cfg.fixed witnessD10 8 5 :=
-  eq_symm_partial _ rfl _ _ _ (by decide) (by decide) (by decide) (by decide) (by decide) (by decide) (by decide)
-example : eqImpl Cfg.fixed witnessTrans 4 6 = true :=
-  eq_trans_partial _ rfl witnessTrans 4 5 6 (by decide) (by decide) (by decide) (by decide) (by decide) (by decide)
-    (by decide) (by decide) (by decide)
-example : eqImpl Cfg.fixed witnessTrans 4 5 = true ∧ eqImpl Cfg.fixed witnessTrans 5 6 = true := by decide
-/-- the guard `NoHashed` excludes e.g. `witnessMap`; what is true there is known by evaluation only (test) -/
-example : ¬ NoHashed witnessMap ∧ eqImpl Cfg.fixed witnessMap 8 9 = eqImpl Cfg.fixed witnessMap 9 8 := by decide
+/-- three hash maps `{(1 2) ↦ {1 2}, 1 ↦ (1 2)}` built from separately allocated lists and sets, with the entries in
+    different orders, inside lists (ids 11, 12, 13) -/
+def witnessHashed : Graph :=
+  [.leaf (.int 1), .leaf (.int 2), .list [0, 1] none, .list [0, 1] none, .list [0, 1] none,
+   .set [0, 1], .set [1, 0], .set [0, 1],
+   .map [(2, 5), (0, 2)], .map [(0, 3), (3, 6)], .map [(4, 7), (0, 4)],
+   .list [8, 8] none, .list [9, 8] none, .list [10, 9] none]
 
-example : NoHashed witnessD10 ∧ NoHashed witnessVec := by decide
+/-- non-vacuity (theorems applied; every hypothesis instantiated): symmetry on the D10 witness (the two values
+    differ) and through hash maps keyed by lists; transitivity over three distinct nodes, one of them a mutable
+    vector, and over three lists of hash maps holding sets -/
+example : eqImpl Cfg.fixed witnessD10 5 8 = eqImpl Cfg.fixed witnessD10 8 5 :=
+  eq_symm _ rfl _ _ _ (by decide) (by decide) (by decide) (by decide) (by decide) (by decide) (by decide)
+example : eqImpl Cfg.fixed witnessMap 8 9 = eqImpl Cfg.fixed witnessMap 9 8 :=
+  eq_symm _ rfl _ _ _ (by decide) (by decide) (by decide) (by decide) (by decide) (by decide) (by decide)
+example : eqImpl Cfg.fixed witnessTrans 4 6 = true :=
+  eq_trans _ rfl witnessTrans 4 5 6 (by decide) (by decide) (by decide) (by decide) (by decide) (by decide)
+    (by decide) (by decide) (by decide) (by decide)
+example : eqImpl Cfg.fixed witnessHashed 11 13 = true :=
+  eq_trans _ rfl witnessHashed 11 12 13 (by decide) (by decide) (by decide) (by decide) (by decide) (by decide)
+    (by decide) (by decide) (by decide) (by decide)
+example : eqImpl Cfg.fixed witnessHashed 11 12 = true ∧ eqImpl Cfg.fixed witnessHashed 12 13 = true ∧
+    eqImpl Cfg.fixed witnessHashed 13 11 = true ∧ MembersDistinct witnessHashed ∧ ¬ NoHashed witnessHashed := by decide
+/-- `Built` is inhabited by graphs with hash sets of lists, and the equivalence applies to them -/
+example : Built ([.leaf (.int 1), .list [0] none, .list [0] none] ++
+    [mkSet Cfg.fixed [.leaf (.int 1), .list [0] none, .list [0] none] [1, 2, 0]]) :=
+  Built.set [1, 2, 0]
+    (Built.node (.list [0] none) (Built.node (.list [0] none) (Built.node (.leaf (.int 1)) Built.nil rfl rfl
+      (by intro xs s h; cases h) (by intro j hj; cases hj)) rfl rfl (by intro xs s h; cases h; rfl) (by decide))
+      rfl rfl (by intro xs s h; cases h; rfl) (by decide))
+    (by decide)
 
 /-! ## hashing agrees with equality -/
 
@@ -414,6 +481,118 @@ example : mTryGet (mInsert [((1 : Int), (2 : Int)), (3, 4)] 3 9) 3 = some 9 ∧ 
     ∧ bMake [0, 255] = .ok [0, 255] ∧ bMake [0, 256] = .err := by decide
 
 end Collections
+
+/-! ## the Rust primitives refine the mathematical models
+
+`Prim.lean` is a model P of the primitives themselves (argument conversions, checks in the order of the code, the
+loops of `drop` / `append` / `range`, `bounds` with its byte offsets, `imbl`'s size-directed `union`,
+`symmetric_difference`, `intersection`, the four ownership branches of `hm_union`); `Coll.*` is the mathematical
+model S the laws above are about.  The operation language `Op` is the one the correspondence run speaks. -/
+
+/-- **Any sequence of collection operations on the model of the primitives yields what the same sequence yields on
+    the mathematical sequence / finite map / finite set** — answer by answer (errors included), unordered results
+    (keys, values, members, map contents) up to permutation.  For all sequences, all arguments. -/
+theorem prim_refines (ops : List Op) : AnsSeqRel (runP ops) (runS ops) :=
+  run_refines_from ops {} {} stRel_init
+
+/-- and the registers stay related: after any prefix the P hash map has the lookup function of the S map, the P set
+    the members of the S set, the sequences are equal -/
+theorem prim_refines_state (p s : St) (h : StRel p s) (op : Op) : StRel (stepP p op).1 (stepS s op).1 :=
+  (step_refines p s h op).1
+
+/-- `hash-union` is left-biased under EVERY ownership pattern of its arguments and whichever map `imbl` decides to
+    mutate (seeded defect m3 swapped the operands in one branch) -/
+theorem hash_union_left_biased (ul ur : Bool) (l r : List (Int × Int)) (hl : Coll.mNodup l) (k : Int) :
+    Prim.hmGet (Prim.hmUnion ul ur l r) k = match Prim.hmGet l k with | some v => some v | none => Prim.hmGet r k := by
+  rw [hmUnion_eq, hmGet_eq, get_imblUnion l r hl k, hmGet_eq, hmGet_eq]
+  cases Coll.mTryGet l k <;> rfl
+
+/-- `substring` / `string->list` on arbitrary Unicode: turning character indices into byte offsets and slicing the
+    bytes = dropping and taking characters; an error exactly outside `0 ≤ i ≤ j ≤ length` (`substring_spec`) -/
+theorem substring_char_indices (s : List Char) (i j : Int) : Prim.substring s i (some j) = Coll.strSub s i j :=
+  substring_eq s i (some j)
+
+/-- `string-ref` compares the index with the BYTE length first; that never rejects a valid character index -/
+theorem string_ref_char_index (s : List Char) (i : Int) : Prim.stringRef s i = Coll.strRef s i := stringRef_eq s i
+
+/-- `(drop l n)` (a `cdr` loop in `stdlib.scm`) and `(list-tail l n)` agree, errors included -/
+theorem drop_is_list_tail (l : List Int) (n : Int) : Prim.drop l n = Prim.listTail l n := by
+  rw [drop_eq, listTail_eq]; rfl
+
+/-- n-ary `append` (with its special case for an empty first list) concatenates -/
+theorem append_flatten (xss : List (List Int)) : Prim.append xss = xss.flatten := append_eq xss
+
+section MoreLaws
+open Coll
+variable {κ ν α : Type} [DecidableEq κ]
+
+/-- `last` of a list that ends in `x`; of the empty list an error -/
+theorem last_append_singleton (l : List α) (x : α) : lLast (l ++ [x]) = .ok x ∧ lLast ([] : List α) = .err := by
+  constructor
+  · simp [lLast]
+  · rfl
+
+/-- `(range lo hi)`: `hi - lo` elements, the i-th is `lo + i`; empty when `hi ≤ lo` -/
+theorem range_spec (lo hi : Int) (hlo : 0 ≤ lo) (hhi : 0 ≤ hi) :
+    ∃ l, lRange lo hi = .ok l ∧ l.length = (hi - lo).toNat ∧ ∀ i, i < l.length → l[i]? = some (lo + (i : Int)) := by
+  refine ⟨(List.range (hi - lo).toNat).map fun (i : Nat) => lo + (i : Int), ?_, by simp, ?_⟩
+  · unfold lRange
+    have : ¬ (lo < 0 ∨ hi < 0) := by omega
+    simp [this]
+  · intro i hi'
+    simp only [List.length_map, List.length_range] at hi'
+    simp [hi']
+
+/-- `hash-keys->list`: every key once, and exactly the keys `hash-contains?` answers for; `hash-values->list` has the
+    same length -/
+theorem keys_spec (m : M κ ν) (h : mNodup m) :
+    (mKeys m).Nodup ∧ (∀ k, k ∈ mKeys m ↔ mContains m k = true) ∧ (mValues m).length = (mKeys m).length :=
+  ⟨h, fun k => (Coll.contains_iff_mem m k).symm, by simp [mValues, mKeys]⟩
+
+/-- `hashset-subset?` is the subset relation of the membership functions -/
+theorem subset_spec (s t : S κ) : sSubset s t = true ↔ ∀ k, sContains s k = true → sContains t k = true := by
+  unfold sSubset sContains
+  rw [List.all_eq_true]
+  constructor
+  · intro h k hk; exact h k (List.contains_iff_mem.mp hk)
+  · intro h k hk; exact h k (List.contains_iff_mem.mpr hk)
+
+/-- `reverse` is an involution that keeps the length; `append` adds the lengths and is associative (n-ary append) -/
+theorem reverse_append_laws (a b c : List α) :
+    a.reverse.reverse = a ∧ a.reverse.length = a.length ∧ (a ++ b).length = a.length + b.length ∧
+    [a, b, c].flatten = a ++ (b ++ c) ∧ (a ++ b).reverse = b.reverse ++ a.reverse := by
+  simp
+
+end MoreLaws
+
+/-- non-vacuity of `prim_refines` (theorem applied) on a sequence with a duplicate key, a union in which the
+    consumed map is the register (`imbl` mutates the literal), boundary indices, a non-ASCII substring and errors;
+    the answers of P, evaluated -/
+def witnessOps : List Op :=
+  [.mNew [1, 2, 1] [10, 20, 30], .mUnion true false true [1, 3, 4] [100, 30, 40], .mRef 1, .mRef 9, .mLen,
+   .sNew [1, 1, 2], .sDiff true [2, 3], .sSubset true [1, 3, 5], .sLen,
+   .lNew [1, 2, 3], .lDrop 3, .lDrop 1, .lRange 2 5, .lAppend [[], [7]] [[], [8, 9]], .lLast, .lTail 7,
+   .vNew [1, 2], .vSet 2 0, .vSet 1 9, .vRef (-1),
+   .bNew [0, 255], .bSet 1 256, .bPush 7, .bNew [256],
+   .tNew ['h', 'é', 'λ', '😀', 'x'], .tSub 1 (some 4), .tRef 2, .tSub 2 (some 5), .tToList none none]
+
+example : AnsSeqRel (runP witnessOps) (runS witnessOps) := prim_refines witnessOps
+
+example : runP witnessOps =
+    [.map [(2, 20), (1, 30)], .map [(3, 30), (4, 40), (2, 20), (1, 30)], .int 30, .err, .int 4,
+     .bag [1, 2], .bag [1, 3], .bool true, .int 2,
+     .seq [1, 2, 3], .seq [], .err, .seq [2, 3, 4], .seq [7, 2, 3, 4, 8, 9], .int 9, .err,
+     .seq [1, 2], .err, .seq [1, 9], .err,
+     .seq [0, 255], .err, .seq [0, 255, 7], .err,
+     .str ['h', 'é', 'λ', '😀', 'x'], .str ['é', 'λ', '😀'], .chr '😀', .err, .str ['é', 'λ', '😀']] := by decide
+/-- the mathematical model gives the same answers, the unordered ones in another order -/
+example : runS witnessOps =
+    [.map [(1, 30), (2, 20)], .map [(1, 30), (2, 20), (4, 40), (3, 30)], .int 30, .err, .int 4,
+     .bag [2, 1], .bag [1, 3], .bool true, .int 2,
+     .seq [1, 2, 3], .seq [], .err, .seq [2, 3, 4], .seq [7, 2, 3, 4, 8, 9], .int 9, .err,
+     .seq [1, 2], .err, .seq [1, 9], .err,
+     .seq [0, 255], .err, .seq [0, 255, 7], .err,
+     .str ['h', 'é', 'λ', '😀', 'x'], .str ['é', 'λ', '😀'], .chr '😀', .err, .str ['é', 'λ', '😀']] := by decide
 
 /-! ## Clauses of the property not carried by a theorem -/
 
